@@ -110,7 +110,12 @@ def gen_cases(ctx) -> list[dict]:
     for k in range(n_fam):
         v = rng.choice(aclgen.ACL_VENDORS)
         rev = aclgen.VENDORS[v]
-        if k % 2 == 0:
+        if k % 3 == 2:
+            parts, tree = aclgen.gen_acl_shared_children(rng, rev)
+            a = parts[0]
+            b = [it for p in parts[1:] for it in p]
+            cases.append(mk_case(v, a, b, tree, False, False, "family-shared-children"))
+        elif k % 2 == 0:
             a, tree = aclgen.gen_acl_overlap(rng, rev)
             cases.append(mk_case(v, a, None, tree, True, False, "family-exclusive"))
         else:
